@@ -176,7 +176,39 @@ def check_joinsplit(ctx, s):
                 ctx.violation('joinsplit-value', {'kind': kind, 's': s}, f'TEXT decodes to {dec!r}, expected {want!r}')
 
 
+def check_no_shared_state(ctx):
+    """splitting a line returns its own parameters: editing what one call returned must not change what a
+    later call returns for the same (or another) line with the same parameter text"""
+    from icalendar.parser import Contentline, Parameters
+    from icalendar.prop import vText
+    lines = ['ATTENDEE;CN=Max;ROLE=CHAIR:mailto:a@example.com', 'ORGANIZER;ROLE=CHAIR:mailto:b@example.com',
+             'X-A;K=v;L="x,y",z:1', 'SUMMARY;LANGUAGE=en:text', 'TRIGGER;RELATED=START:-PT15M']
+    for ln in lines:
+        ctx.evaluated(('alias', ln))
+        n, p, v = Contentline(ln).parts()
+        snap = got_of(p)
+        p['X-INJECTED'] = 'yes'
+        for k, val in list(p.items()):
+            if isinstance(val, list):
+                val.append('extra')
+        for other in [ln] + [x for x in lines if x.split(':')[0].split(';', 1)[-1] == ln.split(':')[0].split(';', 1)[-1]]:
+            n2, p2, v2 = Contentline(other).parts()
+            if other == ln and got_of(p2) != snap:
+                ctx.violation('shared-state', {'position': 'parts-twice', 's': ln},
+                              f'a second parts() of {ln!r} returned {got_of(p2)!r} after the first result was edited; expected {snap!r}')
+            if 'X-INJECTED' in p2:
+                ctx.violation('shared-state', {'position': 'parts-twice', 's': other},
+                              f'parts() of {other!r} returned a parameter that was added to the result of another call')
+    # from_parts must not keep or alter the Parameters it is given
+    p = Parameters({'K': ['a', 'b'], 'L': 'c'})
+    before = got_of(p)
+    Contentline.from_parts('X-N', p, vText('v'))
+    if got_of(p) != before:
+        ctx.violation('shared-state', {'position': 'from_parts', 's': 'K'}, 'from_parts modified the parameter map it was given')
+
+
 def oracle(ctx):
+    check_no_shared_state(ctx)
     for s in hostile(ctx):
         if has_surrogate(s):
             continue
